@@ -2168,3 +2168,18 @@ Proof.
   destruct (check_from _ _ _ _ _ _ _ _ _ _ _ _ _ _) as [[[[r1 r2] r3] r4] r5]. inversion Ek; subst.
   destruct G as (_ & [->|G8]); [repeat split; discriminate|exact G8].
 Qed.
+
+Theorem model_passes_clauses_C07_corr_lemma :
+  forall c steps h0 t0 l0 univ,
+    c_msvc c < 0 -> 0 <= c_tax c -> clean l0 -> NoDup (create_txhs steps) -> Forall good_step steps ->
+    In (DEP, BASE) univ -> (forall d, In d (denoms c) -> In (REQ, d) univ) ->
+    (forall pre st post, steps = pre ++ st :: post -> forall rid q, get rid (reqs (run c (init h0 t0 l0) pre)) = Some q ->
+       In (TAX, q_fd q) univ /\ In (REQ, q_fd q) univ) ->
+    ledger_of (obs_of univ 0 None [] (init h0 t0 l0)) = l0 ->
+    forall corr p k, check_case_C07 (model_case univ c h0 t0 l0 steps) = (corr, p, k) ->
+      corr = -1 /\ k <> 1 /\ k <> 2 /\ k <> 3 /\ k <> 5.
+Proof.
+  intros c steps h0 t0 l0 univ H1 H2 H3 H4 H5 H6 H7 H8 H9 corr p k Ek.
+  split; [exact (proj1 (model_corresponds_to_itself_lemma c steps h0 t0 l0 univ H4 H9) corr p k Ek)|].
+  exact (model_passes_clauses_C07_lemma c steps h0 t0 l0 univ H1 H2 H3 H4 H5 H6 H7 H8 H9 corr p k Ek).
+Qed.
